@@ -30,11 +30,12 @@ Ltac rcw := repeat first [ rewrite rc_d8 | rewrite rc_set_rpc | rewrite rc_set_c
 Lemma rc_reader_step s i : rc (reader_step s i) = rc s.
 Proof.
   unfold reader_step. destruct (nth_error (readers s) i) as [[c p]|]; [|reflexivity].
-  destruct p as [|x| |x|x|x n| | | | |]; try reflexivity.
+  destruct p as [|x| |x|x n|x|x n| | | | |]; try reflexivity.
   - destruct (mem c (lost s)); rcw.
   - destruct x; cbv iota; rcw; try (destruct (status_eqb (status_ s) _); rcw).
   - destruct (status_ s); cbv iota; rcw.
   - rcw.
+  - destruct (existsb holds_mu (firstn n (calls s))); rcw.
   - rcw.
   - destruct (existsb holds_mu (firstn n (calls s))); [reflexivity|]. destruct x; cbv iota; rcw.
   - destruct (Z.eqb (budget s) 0); rcw.
@@ -109,9 +110,9 @@ Proof.
   - eapply rc_ok_of; [apply rc_acquire|exact H].
   - apply rc_round_step. exact H.
   - eapply rc_ok_of; [apply rc_reply_step|exact H].
-  - destruct (nth_error (readers s) i) as [[c p]|]; [|exact H]. destruct p; try exact H.
-    destruct (nth_error (calls s) k) as [cl|]; [|exact H]. destruct (c_pc cl); try exact H.
-    destruct (Nat.ltb k n); [|exact H]. eapply rc_ok_of; [apply rc_set_cpc|exact H].
+  - destruct (nth_error (readers s) i) as [[c p]|]; [|exact H]. destruct p; try exact H;
+      (destruct (nth_error (calls s) k) as [cl|]; [|exact H]); (destruct (c_pc cl); try exact H);
+      (destruct (Nat.ltb k n); [|exact H]); (eapply rc_ok_of; [apply rc_set_cpc|exact H]).
 Qed.
 
 Lemma readers_count_lemma n uid p d s :
